@@ -194,4 +194,24 @@ Section S.
     unfold sob_eval, sob_grad_sig, sob_grad_both, sob_grad_bkg. cbn [fst snd].
     rewrite K_lk_sobg_mask, K_sob_mask. cbn. repeat split.
   Qed.
+
+  (* ---- PDFProduct.get_pd: the product rule of two probability densities depending on the same
+     fit parameter, and the two one-sided cases *)
+  Lemma K_lk_pdfprod pd1 g2 pd2 g1 :
+    lk_pdfprod_both Nm pd1 g2 pd2 g1 = pd1 * g2 + pd2 * g1
+    /\ lk_pdfprod_1 Nm pd2 g1 = pd2 * g1 /\ lk_pdfprod_2 Nm pd1 g2 = pd1 * g2.
+  Proof. unfold lk_pdfprod_both, lk_pdfprod_1, lk_pdfprod_2. num_R. repeat split. Qed.
+
+  Theorem pdf_product_rule (p1 p2 : R -> R) (t0 d1 d2 : R) :
+    is_derive p1 t0 d1 -> is_derive p2 t0 d2 ->
+    is_derive (fun t => p1 t * p2 t) t0 (lk_pdfprod_both Nm (p1 t0) d2 (p2 t0) d1)
+    /\ (d2 = 0 -> lk_pdfprod_both Nm (p1 t0) d2 (p2 t0) d1 = lk_pdfprod_1 Nm (p2 t0) d1)
+    /\ (d1 = 0 -> lk_pdfprod_both Nm (p1 t0) d2 (p2 t0) d1 = lk_pdfprod_2 Nm (p1 t0) d2).
+  Proof.
+    intros H1 H2. destruct (K_lk_pdfprod (p1 t0) d2 (p2 t0) d1) as (E & E1 & E2). rewrite E, E1, E2.
+    split; [|split; intros ->; ring].
+    eapply is_derive_eq.
+    - apply (is_derive_mult p1 p2 t0 d1 d2 H1 H2). intros n m. apply Rmult_comm.
+    - unfold plus; cbn. ring.
+  Qed.
 End S.
